@@ -143,6 +143,16 @@ func GenExchangeDoc(t *rapid.T, eo ExchangeOptions) Doc {
 			}
 			op.Params = append(op.Params, p)
 		}
+		// the order of declaration is not the order in the path template; some parameters are declared
+		// at the path item (every operation has a path of its own)
+		if len(op.Params) > 1 && rapid.Bool().Draw(t, "shuffleparams") {
+			op.Params = rapid.Permutation(op.Params).Draw(t, "paramorder")
+		}
+		for j := range op.Params {
+			if rapid.IntRange(0, 3).Draw(t, "atpathitem") == 0 {
+				op.Params[j].AtPathItem = true
+			}
+		}
 		op.Path = path
 		if op.Method != "GET" && op.Method != "DELETE" && rapid.IntRange(0, 3).Draw(t, "body") > 0 {
 			var bs *Schema
